@@ -110,12 +110,17 @@ class KeySrc:
         if self.kind == "bytes":
             def g(n):
                 v = bytes(self.rng.randrange(256) for _ in range(n))
+                if self.rng.random() < 0.15:
+                    # improbable but legal draws: four zero bytes (masking is then the identity), four equal bytes
+                    v = self.rng.choice([b"\x00", b"\xff", b"\x80"]) * n
                 self.draws.append((n, v))
                 return v
             return g
 
         def g(n):
             v = "".join(chr(self.rng.randrange(0x21, 0x7F)) for _ in range(n))
+            if self.rng.random() < 0.15:
+                v = self.rng.choice(["\x00", "\x7f", " "]) * n
             self.draws.append((n, v))
             return v
         return g
@@ -241,6 +246,11 @@ def one(res, W, rng, conns, L, api, ks, trace, null):
     before = len(peer.client_stream)
     del src.draws[:]
     u0 = len(shim.urandom_log)
+    del shim.urandom_force[:]
+    if ks == "default" and rng.random() < 0.1:
+        # the default source produces an improbable value this time; a second draw (which must not happen) would give another one
+        shim.urandom_force[:] = [rng.choice([b"\x00", b"\xff"]) * 4, b"\x01\x02\x03\x04"]
+        res.count("default_source_degenerate_draws")
     ret_expected = True
     try:
         if api == "send_str":
@@ -284,7 +294,10 @@ def one(res, W, rng, conns, L, api, ks, trace, null):
         elif api == "send_pong_op":
             ret = w.send(arg, W.ABNF.OPCODE_PONG); op = R.PONG
         elif api in ("close", "send_close"):
-            status = rng.choice([1000, 1001, 1002, 1003, 1007, 1008, 1009, 1010, 1011, 3000, 4999, rng.randrange(3000, 5000)])
+            # every status the library agrees to send (0..65535), the codes RFC 6455 reserves or leaves undefined included: what
+            # the caller asked for is what goes on the wire
+            status = rng.choice([1000, 1001, 1002, 1003, 1007, 1008, 1009, 1010, 1011, 3000, 4999, rng.randrange(3000, 5000),
+                                 1004, 1005, 1006, 1012, 1013, 1014, 1015, 1016, 0, 1, 999, 2999, 5000, 65535, rng.randrange(0, 65536)])
             reason = rand_text(rng, L).encode()
             expect_payload = bytes([status >> 8, status & 0xFF]) + reason
             op = R.CLOSE
